@@ -50,6 +50,7 @@ type connRec struct {
 	our        network.Conn // the router's Conn object, learnt at a schedule point
 	pe         *peerEnd
 	peerClosed bool
+	heldAcc    bool // held at router.accepted
 }
 
 type peerHost struct {
@@ -84,6 +85,7 @@ type renv struct {
 	// hook events
 	connectedCh chan network.Conn
 	identityCh  chan network.Conn
+	acceptedCh  chan network.Conn
 	closedSetCh chan struct{}
 
 	// dispatch log
@@ -120,6 +122,7 @@ func newREnv(tcp bool, npeers int) (*renv, error) {
 	opDeadline = longDeadline
 	e := &renv{tcp: tcp, sched: lib.NewSched(),
 		connectedCh: make(chan network.Conn, 64), identityCh: make(chan network.Conn, 64),
+		acceptedCh:  make(chan network.Conn, 256),
 		closedSetCh: make(chan struct{}, 64),
 		dispEnd:     map[int]chan struct{}{}, holdDisp: map[int]chan struct{}{},
 		heldSend: map[int]*lib.Gate{}, heldIn: map[int]*lib.Gate{}, heldStop: map[int]*lib.Gate{},
@@ -157,6 +160,11 @@ func newREnv(tcp bool, npeers int) (*renv, error) {
 		switch point {
 		case "router.connected":
 			e.connectedCh <- args[2].(network.Conn)
+		case "router.accepted":
+			select {
+			case e.acceptedCh <- args[1].(network.Conn):
+			default:
+			}
 		case "router.identityReceived":
 			e.identityCh <- args[2].(network.Conn)
 		case "router.closedSet":
@@ -454,10 +462,36 @@ func (e *renv) runMacro(m mac, seqNo int) error {
 		// the retry path of Send may dial once more
 		e.trackDial(res, e.peerOfSend(m.A), nil)
 		waitCh(res.done, opDeadline)
-	case "incoming", "incominghold", "incomingsilent":
+	case "incoming", "incominghold", "incomingsilent", "incomingholdacc":
 		before := routerGoroutines(e.rptr)
+		for len(e.acceptedCh) > 0 {
+			<-e.acceptedCh
+		}
+		var accGate *lib.Gate
+		if m.Op == "incomingholdacc" {
+			accGate = e.sched.Block("router.accepted", 1, e.sameRouter)
+		}
 		rec := e.dialIn(m.A)
 		if rec == nil {
+			if accGate != nil {
+				accGate.Release()
+			}
+			return nil
+		}
+		if accGate != nil {
+			// the identity is sent at once; the callback is held before its first step
+			e.heldIn[rec.idx] = accGate
+			rec.heldAcc = true
+			rec.pe.conn.Send(e.peers[m.A].si)
+			select {
+			case c := <-e.acceptedCh:
+				rec.our = c
+			case <-time.After(opDeadline):
+				return fmt.Errorf("inbound connection never accepted")
+			}
+			if !accGate.WaitHit(opDeadline) {
+				return fmt.Errorf("inbound not held at router.accepted")
+			}
 			return nil
 		}
 		if m.Op == "incomingsilent" {
@@ -499,6 +533,19 @@ func (e *renv) runMacro(m mac, seqNo int) error {
 		}
 		delete(e.heldIn, m.A)
 		g.Release()
+		if rec := e.conns[m.A]; rec.heldAcc {
+			// the callback is either refused (the connection is closed) or goes on to read the identity
+			pollUntil(func() bool {
+				select {
+				case c := <-e.identityCh:
+					rec.our = c
+					return true
+				default:
+				}
+				closed, _ := network.VerifConnClosed(rec.our)
+				return closed
+			})
+		}
 		e.waitRegistered(e.conns[m.A])
 	case "silentclose":
 		if m.A < len(e.conns) {
@@ -699,8 +746,14 @@ func (e *renv) waitRegistered(rec *connRec) {
 	deadline := time.Now().Add(opDeadline)
 	for time.Now().Before(deadline) {
 		if e.r.Closed() {
-			// refused: the callback returns right after the closed test
-			time.Sleep(2 * time.Millisecond)
+			// refused: the callback closes the connection right after the closed test
+			stop := time.Now().Add(100 * time.Millisecond)
+			for time.Now().Before(stop) {
+				if closed, _ := network.VerifConnClosed(rec.our); closed {
+					return
+				}
+				time.Sleep(200 * time.Microsecond)
+			}
 			return
 		}
 		if e.r.VerifRegistered(rec.our) {
@@ -901,6 +954,8 @@ func coqMacro(m mac) string {
 		return fmt.Sprintf("MIncomingHold %d", m.A)
 	case "incomingsilent":
 		return fmt.Sprintf("MIncomingSilent %d", m.A)
+	case "incomingholdacc":
+		return fmt.Sprintf("MIncomingHoldAcc %d", m.A)
 	case "incomingrelease":
 		return fmt.Sprintf("MIncomingRelease %d", m.A)
 	case "silentclose":
@@ -928,7 +983,7 @@ func runScript(in input) lib.Case {
 	npeers := 1
 	for _, m := range in.Script {
 		switch m.Op {
-		case "send", "sendhold", "sendholdreg", "incoming", "incominghold", "incomingsilent":
+		case "send", "sendhold", "sendholdreg", "incoming", "incominghold", "incomingsilent", "incomingholdacc":
 			if m.A+1 > npeers {
 				npeers = m.A + 1
 			}
